@@ -1,11 +1,13 @@
 package verifh
 
 import (
+	"errors"
 	"fmt"
 	"math"
 	"os"
 	"reflect"
 	"runtime"
+	"strings"
 	"sync"
 	"testing"
 
@@ -30,7 +32,21 @@ var propC16 = register(&Property{
 func genC16(rt *rapid.T, st *Stats) *Case {
 	var n int
 	var ies []iedge
-	if chance(rt, "wide", 1, 25) {
+	if chance(rt, "huge_band", 1, 150) {
+		// one band of hundreds to thousands of nodes: a fan r -> a_0..a_(w-1), a_0 -> b and the long edge r -> b, whose
+		// helper node sits in the wide band. w is just below or above a power of two between 128 and 8192 (where
+		// blocking, chunking and pooling thresholds live: seeded/r6-m16 sums rows in blocks of 4096 and drops the
+		// spacing at the seams). VAlign and PackRight lay such a fan out in well under a second.
+		w := 1<<rapid.IntRange(7, 13).Draw(rt, "huge_exp") + rapid.IntRange(-3, 200).Draw(rt, "huge_off")
+		n = w + 2
+		for i := 0; i < w; i++ {
+			ies = append(ies, iedge{0, 1 + i})
+		}
+		ies = append(ies, iedge{1 + pick(rt, "huge_mid", w), w + 1}, iedge{0, w + 1})
+		if rapid.Bool().Draw(rt, "huge_shuffle") {
+			ies = rapid.Permutation(ies).Draw(rt, "huge_order")
+		}
+	} else if chance(rt, "wide", 1, 25) {
 		// a band of 33..45 nodes (helper nodes of the added long edges included): thresholds on the length of a row
 		// (seeded/r2-m16 sums rows longer than 32 differently) are only reachable there
 		n, ies = genRootedWide(rt, rapid.IntRange(1, 2).Draw(rt, "wide_L"), rapid.IntRange(33, 45).Draw(rt, "wide_W"))
@@ -61,6 +77,11 @@ func genC16(rt *rapid.T, st *Stats) *Case {
 	// the property does not mention the ordering phase: OrderingNoop is a public option too (no helper nodes then, layers in
 	// insertion order, and the positions WMedian would have recorded stay unset - seeded/r5-m16 relied on them)
 	if chance(rt, "ordering_noop", 1, 6) {
+		c.Ord = 1
+	}
+	if len(ies) > 120 {
+		// a huge band: WMedian's transpose step is quadratic in the width of a layer as soon as there is a crossing to
+		// work on (minutes at 8000 nodes, measured the hard way); without the ordering phase the fan is laid out at once
 		c.Ord = 1
 	}
 	return c
@@ -263,24 +284,53 @@ func TestC17(t *testing.T) { runGenerated(t, propC17) }
 
 // stampMonitor stamps every event with the id of the call that is executing when the event arrives
 type stampMonitor struct {
-	owner   int   // id of the call this monitor was passed to
-	current *int  // id of the call executing right now (0 = none)
-	stamps  []int // call id per received event
-	panicAt int   // panic inside Log on the panicAt-th event (0 = never)
+	owner    int   // id of the call this monitor was passed to
+	current  *int  // id of the call executing right now (0 = none)
+	stamps   []int // call id per received event
+	panicAt  int   // panic inside Log on the panicAt-th event (0 = never)
+	persist  bool  // ... and on every later event too: a monitor that is broken for good (closed channel, nil map)
+	panicVal int   // what it panics with: 0 a string, 1 an error value, 2 a runtime.Error (nil map write), 3 a runtime.Error (index)
 }
+
+const monitorPanicText = "verif: monitor panics on purpose"
 
 func (m *stampMonitor) Log(phase int, alg, key string, val any) {
 	m.stamps = append(m.stamps, *m.current)
-	if m.panicAt > 0 && len(m.stamps) == m.panicAt {
-		panic("verif: monitor panics on purpose")
+	if m.panicAt > 0 && (len(m.stamps) == m.panicAt || (m.persist && len(m.stamps) > m.panicAt)) {
+		switch m.panicVal {
+		case 1:
+			panic(errors.New(monitorPanicText))
+		case 2:
+			var broken map[string]int
+			broken[key] = phase // runtime.Error: assignment to entry in nil map
+		case 3:
+			var none []int
+			_ = none[len(m.stamps)] // runtime.Error: index out of range
+		}
+		panic(monitorPanicText)
 	}
 }
 
+// isMonitorPanic: the recovered value is what the monitor itself panicked with
+func (m *stampMonitor) isMonitorPanic(perr any) bool {
+	switch m.panicVal {
+	case 2:
+		e, ok := perr.(runtime.Error)
+		return ok && strings.Contains(e.Error(), "assignment to entry in nil map")
+	case 3:
+		e, ok := perr.(runtime.Error)
+		return ok && strings.Contains(e.Error(), "index out of range")
+	}
+	return fmt.Sprint(perr) == monitorPanicText
+}
+
 type histStep struct {
-	Kind    string `json:"kind"` // plain | monitored | reuse | panic-empty | panic-badedge | panic-monitor
-	Case    *Case  `json:"case,omitempty"`
-	PanicAt int    `json:"panic_at,omitempty"`
-	Reuse   int    `json:"reuse,omitempty"` // index of the earlier monitor to pass again
+	Kind     string `json:"kind"` // plain | monitored | reuse | panic-empty | panic-badedge | panic-monitor
+	Case     *Case  `json:"case,omitempty"`
+	PanicAt  int    `json:"panic_at,omitempty"`
+	Persist  bool   `json:"persist,omitempty"`   // panic-monitor: the monitor keeps panicking on every later event and is not repaired afterwards
+	PanicVal int    `json:"panic_val,omitempty"` // panic-monitor: see stampMonitor.panicVal
+	Reuse    int    `json:"reuse,omitempty"`     // index of the earlier monitor to pass again
 }
 
 type HistoryCase struct {
@@ -372,7 +422,7 @@ func (h *historyRunner) step(s histStep) error {
 		if s.Kind == "reuse" && len(h.monitors) > 0 {
 			mi = s.Reuse % len(h.monitors)
 			m = h.monitors[mi]
-			m.panicAt = 0
+			m.panicAt, m.persist = 0, false
 		} else {
 			m, mi = h.newMonitor(0)
 		}
@@ -406,15 +456,20 @@ func (h *historyRunner) step(s histStep) error {
 		h.sawPanicMonitored = true
 	case "panic-monitor":
 		m, mi := h.newMonitor(max(1, s.PanicAt))
+		m.persist, m.panicVal = s.Persist, s.PanicVal
 		h.owners[mi] = append(h.owners[mi], h.calls+1)
 		_, perr := h.call(s.Case, nil, autog.WithMonitor(m))
 		if perr != nil {
-			if fmt.Sprint(perr) != "verif: monitor panics on purpose" {
+			if !m.isMonitorPanic(perr) {
 				return fmt.Errorf("monitored Layout panicked with something else than the monitor's own panic: %v", perr)
 			}
 			h.sawPanicMonitored = true
 		}
-		m.panicAt = 0
+		if !s.Persist {
+			m.panicAt = 0
+		}
+		// a monitor that is broken for good stays broken: it must simply never be called again (a later call that
+		// reaches it panics, which the "plain"/"monitored" steps report)
 	default:
 		return fmt.Errorf("bad case: unknown step kind %q", s.Kind)
 	}
@@ -495,7 +550,8 @@ func TestC18(t *testing.T) {
 			"panicEmpty":   func(rt *rapid.T) { do(histStep{Kind: "panic-empty"}) },
 			"panicBadEdge": func(rt *rapid.T) { do(histStep{Kind: "panic-badedge"}) },
 			"panicMonitor": func(rt *rapid.T) {
-				do(histStep{Kind: "panic-monitor", Case: genSmallCase(rt), PanicAt: rapid.IntRange(1, 12).Draw(rt, "panic_at")})
+				do(histStep{Kind: "panic-monitor", Case: genSmallCase(rt), PanicAt: rapid.IntRange(1, 12).Draw(rt, "panic_at"),
+					Persist: rapid.Bool().Draw(rt, "panic_persist"), PanicVal: pick(rt, "panic_val", 4)})
 			},
 		})
 		h.o.NonTrivial = h.nontrivial
